@@ -309,6 +309,14 @@ def long_scene_cases(ctx):
             j = rng.randrange(m)
             arr[i, j, sel[0]] += 50
             arr[i, j, sel[2]] += 60
+        for i in [x for x in (255, 511, 1023, 2047, 4095, 8191) if x < n - 1]:
+            # ... and on the lines just before 256 / 512 / 1024 / ... (their neighbours on the NEXT line are selected only
+            # because of them: the criterion is one evaluation over the whole scene, not a sequence of pieces)
+            arr[i + 1, :, sel[0]] = base[i + 1]
+            arr[i + 1, :, sel[2]] = 260.0
+            j = rng.randrange(1, m - 1)
+            arr[i, j, sel[0]] += 50
+            arr[i, j, sel[2]] += 60
         before = arr.copy()
         ds = xr.Dataset({"channels": (("scan_line_index", "columns", "channel_name"), arr)})
         r = cls(tle_dir="/nonexistent", tle_name="x")
